@@ -125,6 +125,7 @@ def run(tier):
     rule_R1(res, prog, cg, consts, tr, eng)
     rule_R4(res, prog)
     rule_R5(res, prog)
+    rule_R6(res, prog)
     return res.finish()
 
 
@@ -452,4 +453,132 @@ def rule_R5(res, prog):
                              "affected description no longer sets SSL_FLAGS_ERROR and the session goes on parsing, encrypting and "
                              "delivering data" % (fn.relfile, ln, fn.name, v["n"], r["v"]), file=fn.relfile, line=ln)
             res.instance(rid, "%s:%s *%s = %s" % (fn.name, ln, v["n"], "const %d" % r["v"] if r is not None and r.get("k") == "int" else "received / computed"), ok, finding=f_)
+    res.floor(rid, 3)
+
+
+def rule_R6(res, prog):
+    """'No error path reports success': matrixSslReceivedData answers a decoder result MATRIXSSL_ERROR with the value the
+    decoder stored through its `error` out-parameter, which matrixSslDecode presets to PS_SUCCESS (0).  So every return of
+    a record decoder (a function with the `int32 *error` parameter) whose value may be MATRIXSSL_ERROR must be preceded
+    on every path by a store of a non-success value to *error - or hand `error` on to the callee whose result it
+    returns.  The possible values of `return rc` are computed from the reaching definitions of rc (constants, callee
+    return-value summaries to depth 4) and narrowed by the branch facts at the return."""
+    import re
+    from sa import cfgutil as cu
+    from sa.pp import pp
+    rid = "C15.R6"
+    res.rule(rid, "a record decoder return that may be MATRIXSSL_ERROR is preceded on every path by a non-success store to *error")
+    ERR = prog.const("MATRIXSSL_ERROR")
+    UNK = "?"
+    memo = {}
+
+    def ret_values(fn, depth):
+        if fn.qname in memo:
+            return memo[fn.qname]
+        memo[fn.qname] = {UNK}
+        if not fn.blocks or depth > 4:
+            return {UNK}
+        rd = cu.reaching_defs(fn)
+        out = set()
+        for b in fn.blocks:
+            for i, ln, x in cu.block_exprs(b):
+                if x.get("k") == "ret" and x.get("e") is not None:
+                    out |= expr_values(fn, rd, b["id"], i, x["e"], depth)
+        memo[fn.qname] = out
+        return out
+
+    def expr_values(fn, rd, bid, idx, e, depth):
+        e = strip(e)
+        while e is not None and e.get("k") == "cast":
+            e = strip(e["e"])
+        if e is None:
+            return {UNK}
+        if e.get("k") == "int":
+            return {e["v"]}
+        if e.get("k") == "un" and e["op"] == "-" and (strip(e["e"]) or {}).get("k") == "int":
+            return {-strip(e["e"])["v"]}
+        if e.get("k") == "call":
+            t = prog.resolve_call(fn, e.get("fn")) if e.get("fn") else None
+            return ret_values(t, depth + 1) if t is not None else {UNK}
+        if e.get("k") == "cond":
+            return expr_values(fn, rd, bid, idx, e.get("t"), depth) | expr_values(fn, rd, bid, idx, e.get("f"), depth)
+        if e.get("k") == "var" and "id" in e and e.get("sc") == "l":
+            out = set()
+            for d in cu.defs_at(fn, rd, bid, idx, e["id"]):
+                r = strip(d[3]) if d[2] in ("assign", "decl") and d[3] is not None else None
+                if r is None or r.get("k") == "var":
+                    out.add(UNK)
+                else:
+                    out |= expr_values(fn, rd, d[0], d[1], d[3], depth)
+            return out or {UNK}
+        return {UNK}
+
+    def narrowed(vals, name, facts):
+        out = set(vals)
+        for (txt, tr) in facts:
+            m = re.match(r"^\(%s (==|!=|<|>=|<=|>) (-?\d+)\)$" % re.escape(name), txt)
+            if not m:
+                if txt == name:         # bare truth: rc != 0
+                    out = set(v for v in out if v == UNK or (v != 0) == tr)
+                continue
+            op, k = m.group(1), int(m.group(2))
+            ev = {"==": lambda v: v == k, "!=": lambda v: v != k, "<": lambda v: v < k, ">=": lambda v: v >= k,
+                  "<=": lambda v: v <= k, ">": lambda v: v > k}[op]
+            out = set(v for v in out if v == UNK or ev(v) == tr)
+        return out
+    n = 0
+    # the decoders proper: matrixSslDecode and the functions whose result it returns with `error` handed on
+    root = prog.fn("matrixSslDecode")
+    decoders = [root]
+    reid = [p_["id"] for p_ in root.params if p_.get("n") == "error"]
+    for b, ln, nd in root.nodes():
+        if nd.get("k") == "call" and nd.get("fn") and reid and any((strip(a) or {}).get("id") == reid[0] for a in nd.get("a", [])):
+            t_ = prog.resolve_call(root, nd["fn"])
+            if t_ is not None and t_.blocks and any(p_.get("n") == "error" for p_ in t_.params) and t_ not in decoders:
+                decoders.append(t_)
+    if len(decoders) < 3:
+        raise AnalysisBroken("C15.R6: matrixSslDecode no longer delegates to two version-specific decoders")
+    for fn in sorted(decoders, key=lambda f: f.qname):
+        rd = cu.reaching_defs(fn)
+        gf = cu.guard_facts(fn)
+        eid = [p_["id"] for p_ in fn.params if p_.get("n") == "error"][0]
+
+        def stores_error(x, eid=eid):
+            for m in walk(x):
+                if m.get("k") == "bin" and m["op"] == "=":
+                    l = strip(m["l"])
+                    if l is not None and l.get("k") == "un" and l["op"] == "*" and (strip(l["e"]) or {}).get("id") == eid:
+                        r = strip(m["r"])
+                        if not (r is not None and r.get("k") == "int" and r["v"] >= 0):
+                            return True
+            return False
+
+        def delegates(e, eid=eid):
+            e = strip(e)
+            return e is not None and e.get("k") == "call" and any((strip(a) or {}).get("id") == eid for a in e.get("a", []))
+        for b in fn.blocks:
+            for i, ln, x in cu.block_exprs(b):
+                if x.get("k") != "ret" or x.get("e") is None:
+                    continue
+                vals = expr_values(fn, rd, b["id"], i, x["e"], 0)
+                e0 = strip(x["e"])
+                if e0 is not None and e0.get("k") == "var":
+                    vals = narrowed(vals, e0.get("n"), gf.get(b["id"], ()))
+                    # rc = callee(.., error, ..): the callee answers for *error
+                    if all(d[2] in ("assign", "decl") and d[3] is not None and delegates(d[3]) for d in cu.defs_at(fn, rd, b["id"], i, e0["id"])):
+                        continue
+                if ERR not in vals or delegates(x["e"]):
+                    continue
+                n += 1
+                esc = cu.escapes(fn, (fn.entry, None), stores_error, is_target=lambda y, x=x: y is x)
+                f_ = None
+                if esc is not None:
+                    f_ = Finding(PROP, rid, fn.name, "decoder returns MATRIXSSL_ERROR without storing *error",
+                                 "%s:%s %s(): `return %s` may yield MATRIXSSL_ERROR (possible values %s) and is reachable (via lines %s) "
+                                 "without a non-success store to *error: matrixSslReceivedData then returns the preset PS_SUCCESS (0) for a "
+                                 "decoding error and the session is not flagged" % (
+                                     fn.relfile, ln, fn.name, pp(x["e"])[:30], sorted(vals, key=str)[:8], [p_[1] for p_ in esc[-6:-1]]),
+                                 file=fn.relfile, line=ln)
+                res.instance(rid, "%s:%s return %s (may be MATRIXSSL_ERROR) stores *error first" % (fn.name, ln, pp(x["e"])[:24]), esc is None, finding=f_)
+    res.stats["R6_decoders"] = sorted(f.name for f in decoders)
     res.floor(rid, 3)
